@@ -225,7 +225,7 @@ def judge_c02(prog, finite, o, res, labels='?'):
             return True
         gets = o.get('get', {})
         for i in range(-n - 2, n + 2):
-            for variant, g in zip(('int', 'np.int64', 'np.int32'), gets[i]):
+            for variant, g in zip(('int', 'np.int64', 'np.int32', 'narrowest numpy int'), gets[i]):
                 res.count('index_probes')
                 if -n <= i < n:
                     if is_err(g):
